@@ -14,7 +14,7 @@ namespace {
 struct Ver { uint64_t seq = 0; bool del = false; string val; string src; };
 
 // newest version per user key over every surviving table and log file (independent decoders)
-bool durable_model(const string &dir, const KeyCmp &kc, std::map<string, Ver, KeyCmp> *out, std::map<string, std::map<uint64_t, Ver>> *all, uint64_t *max_seq, uint64_t *max_num, string *err) {
+bool durable_model(const string &dir, const KeyCmp &kc, std::map<string, Ver, KeyCmp> *out, std::map<string, std::map<uint64_t, Ver>> *all, uint64_t *max_seq, uint64_t *max_num, string *err, bool tolerate_partial) {
   *max_seq = 0; *max_num = 0;
   for (auto &name : simfs::list_dir(dir)) {
     uint64_t num; int fc;
@@ -31,7 +31,7 @@ bool durable_model(const string &dir, const KeyCmp &kc, std::map<string, Ver, Ke
     };
     if (fc == simfs::FC_TABLE) {
       ref::TableDecode td = ref::table_decode(data);
-      if (!td.ok) { *err = "independent reader cannot decode surviving table " + name + ": " + td.error; return false; }
+      if (!td.ok) { if (tolerate_partial) { probe("undecodable_table_skipped"); continue; } *err = "independent reader cannot decode surviving table " + name + ": " + td.error; return false; }
       for (auto &e : td.entries) { ref::IKey k; if (!ref::ikey_parse(e.ikey, &k)) { *err = "bad internal key in " + name; return false; } note(k.user, k.seq, k.type == 0, e.value); }
     } else if (fc == simfs::FC_LOG) {
       ref::LogDecode ld = ref::log_decode(data);
@@ -72,6 +72,7 @@ Plan gen_repair(uint64_t seed, const string &prop) {
     p.ops.push_back(o);
   }
   p.seti("loss", (long)r.below(6));
+  p.seti("kill", r.chance(0.35));
   p.seti("followups", (long)r.range(1, 4));
   return p;
 }
@@ -93,6 +94,16 @@ void exec_repair(const Plan &p, RunOut *out) {
         else if (o.kind == O_FLUSH) ldb_test_compact_memtable(db);
         else if (o.kind == O_COMPACT_RANGE) ldb_test_compact_range(db, o.a < 0 ? 0 : o.a > 5 ? 5 : o.a, NULL, NULL);
         else if (o.kind == O_REOPEN) { sim::drain(); ldb_close(db); db = nullptr; sim::drain(); opt.set(p.cfg, true); rc = ldb_open(dir.c_str(), &opt.o, &db); if (rc) { violation("C19", "build_failed", "reopen failed: %s", rcname(rc)); db = nullptr; } }
+      }
+      if (db && p.geti("kill", 0)) {
+        // the database is not closed cleanly: repair works on the byte-exact image a process kill leaves behind
+        // (the background worker may be part-way through a flush or compaction: half-written and orphan tables)
+        simfs::copy_tree(dir, dir + "_k");
+        ldb_close(db); db = nullptr; sim::drain();
+        simfs::remove_tree(dir);
+        simfs::copy_tree(dir + "_k", dir);
+        simfs::remove_tree(dir + "_k");
+        probe("crash:kill_image");
       }
       if (db) { sim::drain(); ldb_close(db); sim::drain(); }
     }
@@ -119,7 +130,7 @@ void exec_repair(const Plan &p, RunOut *out) {
     bool multi_file_versions = false;
     if (!failed()) {
       string err;
-      if (!durable_model(dir, kc, &want, &all, &max_seq, &max_num, &err)) violation("C19", "survivor_decode", "%s", err.c_str());
+      if (!durable_model(dir, kc, &want, &all, &max_seq, &max_num, &err, p.geti("kill", 0) != 0)) violation("C19", "survivor_decode", "%s", err.c_str());
       for (auto &kv : all) { std::set<string> files; for (auto &v : kv.second) files.insert(v.second.src); if (files.size() >= 2) multi_file_versions = true; }
     }
     simfs::Journal journal;
